@@ -154,3 +154,23 @@ package annotation
 //@   calls_havoc
 //@   modifies *
 //@   assert at "curBlockE, err := getElements(ctx, tk)": heldw("d.RWMutex")
+
+// ---- label sync: cleave (C13) ----
+// After a cleave event the target body's label-indexed element list is rewritten; when every element of
+// the target moved to the cleaved body (none stays) the target's entry is DELETED, and it is deleted only
+// then - otherwise the old body's index keeps the elements that now sit on the new body.
+//@ func Data.cleaveLabels
+//@   prop C13
+//@   requires d != nil && op.Target != 0 && op.CleavedLabel != 0 && op.CleavedLabel != op.Target
+//@   safety_off
+//@   calls_havoc
+//@   modifies *
+//@   ghost stays bool = false
+//@   ghostset at "labelElems.add(op.Target, elem)": stays = true
+//@   ghost delT bool = false
+//@   ghostset at "batch.Delete(NewLabelTKey(op.Target))": delT = true
+//@   assume at "for i, cleaved := range inCleaved {": forall l uint64 :: !has(labelElems, l)
+//@   invariant loop 2: has(labelElems, op.Target) <==> stays
+//@   invariant loop 2: !delT
+//@   invariant loop 3: (has(labelElems, op.Target) <==> stays) && !delT
+//@   assert at "if err := batch.Commit(); err != nil {": stays <==> !delT
